@@ -99,6 +99,7 @@ def check_update_genes(ctx, rule: str) -> None:
         ("the rule is emptied", True, ["a", "b"], [], [("a", "model"), ("b", "model")]),
         ("one gene leaves the rule", True, ["a", "b"], ["b"], [("a", "model"), ("b", "model")]),
         ("the rule is assigned again unchanged", True, ["a", "b"], ["a", "b"], [("a", "model"), ("b", "model")]),
+        ("a gene that was put into model.genes by hand (listed, but without its model pointer)", True, ["a", "h!"], ["a", "h"], [("a", "model")]),
         ("a reaction without a model", False, [], ["a", "b"], []),
         ("a reaction without a model whose rule loses a gene", False, [], ["a"], [("a", "private"), ("b", "private")]),
     ]
@@ -114,7 +115,10 @@ def check_update_genes(ctx, rule: str) -> None:
             }
             it = Interp(prog, (_S, RealMethods, _BoundReal), [f.qualname for f in prog.all_funcs() if f.qualname.startswith("cobra.core.reaction.Reaction.")], stubs, globals_={})
             RxS = real_methods_class("ReactionStandIn", prog, cls, it, bases=(_S,), skip=("__init__", "__setstate__", "__getstate__", "model"))
-            model = ModelS(model_ids) if attached else None
+            model = ModelS([i.rstrip("!") for i in model_ids]) if attached else None
+            for i in model_ids:
+                if i.endswith("!"):
+                    model.genes.get_by_id(i[:-1])._model = None   # listed by hand: the pointer was never set
             r = RxS()
             object.__setattr__(r, "_id", "R1")
             object.__setattr__(r, "id", "R1") if "id" not in RxS._getters else None
